@@ -26,7 +26,7 @@ from c20_vocab import vocab_category
 PROOF_MODULES = ["UnytProofs.C20", "UnytProofs.C20Tab0", "UnytProofs.C20Tab1", "UnytProofs.C20Tab2", "UnytProofs.C20Names",
                  "UnytProofs.C20Syntax", "UnytProofs.C20Total", "UnytProofs.C20Roundtrip"]
 HERE = os.path.dirname(os.path.abspath(__file__))
-LIMIT = 5.0  # seconds per request on the real parser
+LIMIT = 8.0  # seconds per request on the real parser
 
 # --------------------------------------------------------------------------------------
 # watchdog around the real library
@@ -149,10 +149,8 @@ CHECK = (
     "    f = lambda a, b: a == b or (math.isnan(a) and math.isnan(b)) or math.isclose(a, b, rel_tol=1e-12)\n"
     "    assert v.dimensions == u.dimensions and f(float(v.base_offset), float(u.base_offset)), (u, t, v)\n"
     "    ok = u.base_value == 0 or 1e-290 < abs(u.base_value) < 1e290\n"
-    "    for b, p in u.expr.as_coeff_Mul()[1].as_powers_dict().items():\n"
-    "        if b.is_Symbol:\n"
-    "            sc = abs(float(Unit(b).base_value))\n"
-    "            ok = ok and not (sc > 0 and abs(float(p) * math.log10(sc)) > 290)\n"
+    "    logs = [float(p) * math.log10(abs(float(Unit(b).base_value))) for b, p in u.expr.as_coeff_Mul()[1].as_powers_dict().items() if b.is_Symbol and float(Unit(b).base_value) != 0]\n"
+    "    ok = ok and sum(x for x in logs if x > 0) < 290 and sum(x for x in logs if x < 0) > -290\n"
     "    if ok:\n"
     "        assert f(float(v.base_value), float(u.base_value)) and (math.isnan(u.base_value) or v == u), (u, t, v)\n"
     "    import sympy\n"
@@ -626,7 +624,7 @@ def run(tier, seed):
         chk.case(("bytes", bytes(b)))
         chk.count(f"bytes:{r}")
         if r == "hang":
-            chk.fail("hang|bytes", f"Unit({bytes(b)!r}) did not return", {"python": snip_bytes(b)})
+            chk.fail("hang|" + hang_shape(bytes(b).decode("utf-8", "replace")), f"Unit({bytes(b)!r}) did not return", {"python": snip_hang(bytes(b))})
         elif r == "exc":
             chk.fail(f"escape|{rep['exc']}|{rep['trig']}", f"Unit({bytes(b)!r}) raised {rep['exc']}, not UnitParseError", {"python": snip_bytes(b)})
         voc = rep.get("vocab")
